@@ -319,6 +319,12 @@ class Orchestrator:  # thailint: ignore[srp]
         Returns:
             List of violations found in the file.
         """
+        return self._lint_file_with_rules(file_path, None)
+
+    def _lint_file_with_rules(
+        self, file_path: Path, only_rules: list[BaseLintRule] | None
+    ) -> list[Violation]:
+        """Lint a single file with all applicable rules, or only with the given ones."""
         # Fast path: skip compiled files and common excluded directories
         if _is_hardcoded_excluded(self._path_within_project(file_path)):
             return []
@@ -327,7 +333,9 @@ class Orchestrator:  # thailint: ignore[srp]
             return []
 
         language = detect_language(file_path)
-        rules = self._get_rules_for_file(file_path, language)
+        rules = only_rules
+        if rules is None:
+            rules = self._get_rules_for_file(file_path, language)
 
         # Add project_root to metadata for rules that need it (e.g., DRY linter cache)
         metadata = {**self.config, "_project_root": self.project_root}
@@ -492,8 +500,25 @@ class Orchestrator:  # thailint: ignore[srp]
             return self.lint_files(file_paths)
 
         violations = self._execute_parallel_linting(file_paths, effective_workers)
+        # The workers' copies of the cross-file rules are gone with the workers: this
+        # process's copies must see every file before they are finalized
+        self._feed_cross_file_rules(file_paths)
         violations.extend(self._finalize_rules())
         return violations
+
+    def _feed_cross_file_rules(self, file_paths: list[Path]) -> None:
+        """Run the rules that analyse across files (they override finalize) over all files.
+
+        Their per-file results were already reported by the workers and are discarded here.
+        """
+        self._ensure_rules_discovered()
+        cross_file_rules = [
+            rule
+            for rule in self.registry.list_all()
+            if type(rule).finalize is not BaseLintRule.finalize
+        ]
+        for file_path in file_paths:
+            self._lint_file_with_rules(file_path, cross_file_rules)
 
     def _execute_parallel_linting(
         self, file_paths: list[Path], max_workers: int
